@@ -194,7 +194,7 @@ func NewWorld(cfg Config) *World {
 	}
 	zeros := strings.Repeat("0", cfg.Exp10) // the pool tokens are funded at the scenario's amount scale
 	fund := core.Coins(Denom0, "1000000000000000000000"+zeros, Denom1, "1000000000000000000000"+zeros, "uosmo", "100000000000", IncDen, "1000000000000000", incDenoms[0], "1000000000000000", incDenoms[1], "1000000000000000", incDenoms[2], "1000000000000000")
-	env := core.NewEnv(core.GenesisOpts{Balances: map[string]sdk.Coins{"A": fund, "B": fund, "C": fund, "T": fund, "I": fund}})
+	env := core.NewEnv(core.GenesisOpts{Balances: map[string]sdk.Coins{"A": fund, "B": fund, "C": fund, "T": fund, "I": fund, "N": fund}})
 	a, ctx := env.App, env.Ctx
 	w := &World{Env: env, App: a, Cfg: cfg, SF: osmomath.MustNewDecFromStr(cfg.SpreadFactor), scale: new(big.Int).Exp(big.NewInt(10), big.NewInt(int64(cfg.Exp10)), nil)}
 
@@ -250,7 +250,44 @@ func NewWorld(cfg Config) *World {
 		{cltypes.MinInitializedTick, cltypes.MaxTick}, // 4 full range
 		{c0 - 2*u, c0},                           // 5 ends exactly at the initial tick, shares lower with 0
 	}
+	w.neighbours(ctx)
 	return w
+}
+
+// neighbours puts nine more concentrated pools of the same denom pair into the world, owned and funded by account N, which the
+// scenario never uses otherwise. The last one has the id "<pool under test>0" (1 -> 10): every per-pool key of the module is
+// a byte-prefix range over the decimal pool id, so pool 10's positions, ticks and incentive records are what a missing key
+// separator would sweep into pool 1. Pool 10 holds a full-range position and one running incentive record per uptime, in
+// the reward denoms the scenario's own records use. Nothing of this may ever show in pool 1's books.
+func (w *World) neighbours(ctx sdk.Context) {
+	a := w.App
+	var last uint64
+	for i := 0; i < 9; i++ {
+		cm := clmodel.NewMsgCreateConcentratedPool(core.Acc("N"), Denom0, Denom1, 100, osmomath.MustNewDecFromStr("0.003"))
+		r := core.Deliver(a, ctx, &cm)
+		if !r.OK() {
+			panic(fmt.Sprintf("harness: neighbour pool creation failed: %v", r.Err))
+		}
+		var resp clmodel.MsgCreateConcentratedPoolResponse
+		mustUnmarshal(r.Res, &resp)
+		last = resp.PoolID
+	}
+	if fmt.Sprint(last) != fmt.Sprint(w.PoolID)+"0" {
+		panic(fmt.Sprintf("harness: neighbour pool id %d is not the pool under test (%d) followed by a zero", last, w.PoolID))
+	}
+	amt := new(big.Int).Mul(big.NewInt(1000000), w.scale)
+	r := core.Deliver(a, ctx, &cltypes.MsgCreatePosition{PoolId: last, Sender: core.Acc("N").String(),
+		LowerTick: cltypes.MinInitializedTick, UpperTick: cltypes.MaxTick,
+		TokensProvided:  sdk.NewCoins(sdk.NewCoin(Denom0, sdkmath.NewIntFromBigInt(amt)), sdk.NewCoin(Denom1, sdkmath.NewIntFromBigInt(amt))),
+		TokenMinAmount0: sdkmath.ZeroInt(), TokenMinAmount1: sdkmath.ZeroInt()})
+	if !r.OK() {
+		panic(fmt.Sprintf("harness: neighbour position failed: %v", r.Err))
+	}
+	for i, up := range w.Uptime {
+		if _, err := a.ConcentratedLiquidityKeeper.CreateIncentive(ctx, last, core.Acc("N"), sdk.NewCoin(incDenoms[i], sdkmath.NewInt(500000000)), osmomath.NewDec(1000), ctx.BlockTime(), up); err != nil {
+			panic(fmt.Sprintf("harness: neighbour incentive failed: %v", err))
+		}
+	}
 }
 
 func mustUnmarshal(res *sdk.Result, m proto.Message) {
